@@ -1,6 +1,7 @@
 package sx
 
 import (
+	"go/types"
 	"go/token"
 
 	"golang.org/x/tools/go/ssa"
@@ -393,6 +394,22 @@ func MutexKey(v ssa.Value) string { return mutexKey(v) }
 func NilEdges(v ssa.Value) (isNil, nonNil map[Edge]bool) {
 	isNil, nonNil = map[Edge]bool{}, map[Edge]bool{}
 	vals := []ssa.Value{v}
+	// a call returning (…, error): the tests are on the extracted error
+	if tup, ok := v.Type().(*types.Tuple); ok && tup.Len() > 1 && v.Referrers() != nil {
+		vals = nil
+		for _, r := range *v.Referrers() {
+			if e, ok := r.(*ssa.Extract); ok && e.Index == tup.Len()-1 {
+				a, b := NilEdges(e)
+				for k := range a {
+					isNil[k] = true
+				}
+				for k := range b {
+					nonNil[k] = true
+				}
+			}
+		}
+		return
+	}
 	if v.Referrers() != nil {
 		for _, r := range *v.Referrers() {
 			if ph, ok := r.(*ssa.Phi); ok {
